@@ -352,7 +352,10 @@ func trichotomyRule(c *Ctx, r *Report, rule string, read *ssa.Function, cmpPosSi
 			}
 			return nil
 		}
-		blk, end, stuck := absWalk(read, eval, decodes)
+		// ip_j3.go: absWalk that also follows same-package helpers, merges and nil/non-nil errors
+		aw := newJ3Abs(read, eval)
+		aw.topStop = decodes
+		blk, end, stuck := aw.walk(aw.top, decodes)
 		switch {
 		case stuck != "":
 			o.Bad("cannot decide this ordering: %s (at %s)", stuck, c.pos(blk.Instrs[len(blk.Instrs)-1].Pos()))
@@ -361,7 +364,7 @@ func trichotomyRule(c *Ctx, r *Report, rule string, read *ssa.Function, cmpPosSi
 		default:
 			if ret, ok := end.(*ssa.Return); ok {
 				ev := resOf(ret, len(ret.Results)-1)
-				if isNilConst(origin(ev)) {
+				if isNilConst(origin(ev)) || aw.evalErr(ret.Results[len(ret.Results)-1], aw.top) == j3Nil {
 					o.Bad("with %s, no pending error and an empty buffer, Read returns (0, nil) at %s without decoding: a consumer such as io.Copy spins forever", name, c.pos(ret.Pos()))
 				} else {
 					o.OK("Read returns a non-nil error/EOF (%s) at %s", pathOf(origin(ev)), c.pos(ret.Pos()))
